@@ -248,8 +248,10 @@ impl Exec {
                 ));
                 #[cfg(adf_obdd_verif)]
                 {
+                    // the audit of the private tables checks the proofs' INVARIANT on the real object;
+                    // it is part of the tie (correspondence channel), not of a property's statement
                     out.line(&format!("memocheck {} {}", table, dump_tables(bdd)));
-                    out.line("~ ok");
+                    out.line("= audit ok");
                 }
                 let inner = bdd.nodes.len() - 2;
                 out.line(&format!("# case bdd nodes={} ops={} nv={}", inner, self.hist.len() - 2, self.nv));
